@@ -140,6 +140,19 @@ def run(chk: Check) -> None:
             else:
                 ok &= {fn.params[0], fn.params[1]} <= names
     chk.ob('SIB-key-function', fn, ok and n_paths >= 2, 'the file name depends on the pid, and on the tag whenever one is given', kind='name-depends-on-both')
+    # ... injectively: (pid, tag) -> name must not map two keys to one file.  A name that splices str(pid) and the tag together with a literal
+    # separator, neither of them encoded or checked for that separator, does: (1, '2') and ('1.2', None) are both '1.2.pickle'
+    raw = []
+    for r in [x for x in ast.walk(fn.node) if isinstance(x, ast.JoinedStr)]:
+        parts = [v for v in r.values if isinstance(v, ast.FormattedValue)]
+        for v in parts:
+            if isinstance(v.value, ast.Name) and v.value.id in fn.params[:2] and v.conversion == -1 and v.format_spec is None:
+                raw.append((r, v.value.id))
+    checked = any(isinstance(c, ast.Call) and last_name(c) in ('quote', 'quote_plus', 'hex', 'b64encode', 'urlsafe_b64encode', 'escape') for c in ast.walk(fn.node)) or \
+        any(isinstance(x, ast.Raise) for x in ast.walk(fn.node))
+    chk.ob('SIB-key-function', fn, not raw or checked, 'the file name is an injective function of (pid, tag)' + ('' if (not raw or checked) else
+           f': {sorted({n_ for _, n_ in raw})} are spliced in as they are around a literal separator, so distinct keys collide -- (1, "2") and ("1.2", None) name the same file; saving one '
+           'overwrites the other and continue(pid=1, tag="2") resumes a different process'), node=raw[0][0] if raw else None, kind='name-injective')
     c = [x for x in calls_in_func(fp, 'pickle_filename')]
     chk.ob('SIB-key-function', fp, len(c) == 1 and [norm(a) for a in c[0].args] == fp.params[1:3] and any('self._pickle_directory' in norm(a) for j in calls_in_func(fp, 'join') for a in j.args),
            'the path is <directory>/<name(pid, tag)>', kind='path-from-name')
